@@ -208,6 +208,16 @@ def run(ctx):
     nums = [d for f_ in bodies11 for d in A.walk(u.body(f_)) if d.get("kind") == "VarDecl" and any(A.callee_name(c) == "numeric_range_types" for c in A.calls_in(d))]
     ctx.require(len(nums) >= 1, "R11.11: the `numeric` flag of the range check was not found")
     num_ids = {d["id"] for d in nums}
+    # a helper's parameter is the flag when every call of the helper hands the flag (or the test itself) over at that position
+    for _ in range(2):
+        for g_ in bodies11[1:]:
+            sites_g = [c_ for f_ in bodies11 for c_ in A.calls_in(u.body(f_), g_.get("name"))]
+            for pi_, pp_ in enumerate(u.params(g_)):
+                if pp_["id"] in num_ids or not sites_g:
+                    continue
+                if all(len(A.kids(c_)) > pi_ + 1 and (A.ref_id(A.kids(c_)[pi_ + 1]) in num_ids or
+                                                      any(A.callee_name(k_) == "numeric_range_types" for k_ in A.calls_in(A.kids(c_)[pi_ + 1]))) for c_ in sites_g):
+                    num_ids.add(pp_["id"])
     n11 = 0
     for c in [c_ for f_ in bodies11 for c_ in A.calls_in(u.body(f_), "rtosc_scan_arg_val")]:
         a_ = A.kids(c)[1:]
@@ -216,7 +226,7 @@ def run(ctx):
         n11 += 1
         safe = False
         for cond, pol in _g19(u, c):
-            ids_ = {y["referencedDecl"]["id"] for y in A.walk(cond) if y.get("kind") == "DeclRefExpr" and (y.get("referencedDecl") or {}).get("kind") == "VarDecl"}
+            ids_ = {y["referencedDecl"]["id"] for y in A.walk(cond) if y.get("kind") == "DeclRefExpr" and (y.get("referencedDecl") or {}).get("kind") in ("VarDecl", "ParmVarDecl")}
             if not (ids_ & num_ids):
                 continue
             # with the flag false (and every other operand as permissive as possible) the guard must fail
